@@ -582,11 +582,9 @@ XPipe(c, s) ==
   IF L.bad # "" THEN Bad(s, L.bad)
   ELSE IF lastInParent THEN
        \* the last stage ran in the shell itself: everything it did stays (variables, exit, break ...)
-       LET differs == R.vars # s.vars \/ R.ctl # "n" \/ R.pos # s.pos \/ R.fn # s.fn \/ R.e # s.e \/ R.u # s.u
-                      \/ R.pf # s.pf \/ R.tx # s.tx \/ R.te # s.te
-           R1 == [R EXCEPT !.inp = L.inp, !.eof = s.eof, !.st = IF R.ctl = "n" THEN st ELSE @] IN
+       LET R1 == [R EXCEPT !.inp = L.inp, !.eof = s.eof, !.st = IF R.ctl = "n" THEN st ELSE @] IN
        IF race THEN Bad(R1, "pipefail with an unread writer")
-       ELSE IF differs \/ s.te.set \/ s.e \/ s.ld > 0 \/ s.fd > 0 THEN Trig(R1, "Dev_LastPipeInParent") ELSE R1
+       ELSE Trig(R1, "Dev_LastPipeInParent")       \* (whether it matters depends on what the stage does: always flagged)
   ELSE LET b == [Back(s, R) EXCEPT !.out = s.out \o R.out, !.inp = L.inp, !.eof = s.eof, !.st = st] IN
        IF race THEN Bad(b, "pipefail with an unread writer") ELSE b
 
@@ -978,8 +976,8 @@ Open(tok, r) == IF r # <<>> /\ Head(r) \in {"(", "(("} THEN <<tok, " ">> ELSE <<
 RECURSIVE DWord(_, _, _), DCmd(_, _, _), DCmdK(_, _, _, _), DStmts(_, _, _)
 
 \* ---- words
-NWord0 == 17
-NWord  == 19
+NWord0 == 18
+NWord  == 20
 DWord(p, d, inF) ==
   LET c  == IF d = 0 THEN Ch(p) % NWord0 ELSE Ch(p)
       nd == Nd(p, IF d = 0 THEN NWord0 ELSE NWord)
@@ -1001,9 +999,11 @@ DWord(p, d, inF) ==
     [] c = 14 -> leaf(Wd(<<PE("x") @@ ("Length" :> TRUE)>>), <<"${#x}">>)
     [] c = 15 -> leaf(Wd(<<PE("y") @@ ("Exp" :> ExpOp(":=", LW(<<"d">>)))>>), <<"${y:=d}">>)
     [] c = 16 -> leaf(Wd(<<PE("x") @@ ("Exp" :> ExpOp(":+", LW(<<"s">>)))>>), <<"${x:+s}">>)
-    [] c = 17 -> LET s == DStmts(p + 1, d - 1, inF) IN
-                 Res(s.pos, Need2(nd, s.need), Wd(<<CS(s.t)>>), Open("$(", s.r) \o s.r \o <<")">>)
+    [] c = 17 -> leaf(Wd(<<[k |-> "ArithmExp", X |-> BinA("-", LW(<<"1">>), [k |-> "UnaryArithm", Op |-> "-", X |-> LW(<<"x">>)])]>>),
+                      <<"$((1 - -x))">>)
     [] c = 18 -> LET s == DStmts(p + 1, d - 1, inF) IN
+                 Res(s.pos, Need2(nd, s.need), Wd(<<CS(s.t)>>), Open("$(", s.r) \o s.r \o <<")">>)
+    [] c = 19 -> LET s == DStmts(p + 1, d - 1, inF) IN
                  Res(s.pos, Need2(nd, s.need), Wd(<<DQ(<<CS(s.t)>>)>>), Open("\"$(", s.r) \o s.r \o <<")\"">>)
 
 \* ---- commands (each menu entry is a statement)
